@@ -1,5 +1,6 @@
 import CollectionsC.Proofs.TST
 import CollectionsC.Proofs.TSTIter
+import CollectionsC.Proofs.TSTCross
 /-! # C11 — CC_TSTTable is an exact string-keyed map
 
 Statements and closing proofs (helpers: `Proofs/TST.lean`, `Proofs/TSTIter.lean`).  The concrete model
@@ -17,15 +18,20 @@ byte values), every value, every finite history, every allocator schedule.
 namespace CC.Properties.C11
 open CC CC.TST
 open CC.Spec (StrMap)
-open CC.Spec.StrMap (Op Out)
+open CC.Spec.StrMap (Op Out IOp IOut Cursor Oracle)
 
 variable {cmp : Cmp}
+
+/-- closes goals that `simp only` may or may not have reduced to `True` already -/
+local macro "triv" : tactic => `(tactic| first | rfl | trivial | simp)
 
 /-- the spec state describes the table: same lookups (hence the same pairs up to order) -/
 def Rel (t : Table) (s : StrMap) : Prop := s.WF ∧ ∀ k, s.get k = t.abs.get k
 
-/-- outputs agree; enumerations agree up to order -/
-def OutRel (a b : Out) : Prop := a.st = b.st ∧ a.val = b.val ∧ a.enum.Perm b.enum
+/-- outputs agree; enumerations agree up to order; the calls of an iterator session return the same
+results and every key the session yielded was legal for the ideal cursor -/
+def OutRel (a b : Out) : Prop :=
+  a.st = b.st ∧ a.val = b.val ∧ a.enum.Perm b.enum ∧ a.iter = b.iter ∧ a.legal = b.legal
 
 /-- pointwise `OutRel` on output lists of equal length -/
 def OutsRel : List Out → List Out → Prop
@@ -33,8 +39,10 @@ def OutsRel : List Out → List Out → Prop
   | a :: as, b :: bs => OutRel a b ∧ OutsRel as bs
   | _, _ => False
 
-/-- the spec is told that a call was refused exactly when the implementation reported `CC_ERR_ALLOC` -/
-def refusedIn (o : Out) : Bool := o.st == some .errAlloc
+/-- what the spec is told about a call: "refused" exactly when the implementation reported
+`CC_ERR_ALLOC` (pinned down by `add_refused_iff`: exactly when an allocator request was refused), and the
+keys an iterator session yielded (each validated by the cursor: `legal`) -/
+def oracleOf (o : Out) : Oracle := { refused := o.st == some .errAlloc, choices := o.iter.map (·.key) }
 
 theorem rel_abs (hc : CmpLaw cmp) (t : Table) (hg : t.Good cmp) : Rel t t.abs :=
   ⟨abs_wf hc t hg.1.2.2 hg.2, fun _ => rfl⟩
@@ -43,7 +51,10 @@ theorem rel_perm (hc : CmpLaw cmp) (t : Table) (s : StrMap) (hg : t.Good cmp) (h
     s.items.Perm t.abs.items :=
   SpecLemmas.perm_of_get_eq s t.abs hr.1 (abs_wf hc t hg.1.2.2 hg.2) hr.2
 
-/-! ## per-operation theorems -/
+/-! ## per-operation theorems
+
+`Mem.liveT t.triple` is the live-block counter of the allocator triple the table was built with
+(`live` for `cc_tsttable_new_conf`, `liveLibc` for `cc_tsttable_new`). -/
 
 /-- **add refines add-or-replace, is atomic under refusal, keeps the ledger, never faults.** -/
 theorem add_refines_partial (hc : CmpLaw cmp) (t : Table) (k : Key) (v : Nat) (mem : Mem)
@@ -52,20 +63,22 @@ theorem add_refines_partial (hc : CmpLaw cmp) (t : Table) (k : Key) (v : Nat) (m
     ((t.add cmp k v mem).1 = .ok →
         (t.add cmp k v mem).2.1.Good cmp ∧
         (∀ k', (t.add cmp k v mem).2.1.abs.get k' = (t.abs.add k v).get k') ∧
-        (t.add cmp k v mem).2.2.live + t.root.owned = mem.live + (t.add cmp k v mem).2.1.root.owned) ∧
+        (t.add cmp k v mem).2.2.liveT t.triple + t.root.owned =
+          mem.liveT t.triple + (t.add cmp k v mem).2.1.root.owned) ∧
     (t.add cmp k v mem).2.2.fault = mem.fault := by
   have h := Table.add_spec hc t k v mem hk hg
-  refine ⟨?_, h.1, h.2.2.1⟩
+  refine ⟨?_, h.1, h.2.2⟩
   by_cases h1 : (t.add cmp k v mem).1 = .ok
   · exact Or.inl h1
   · exact Or.inr (h.2.1 h1).1
 
 /-- **C08 (TST part): a refused node or entry allocation leaves the whole table unchanged** — not only
 its abstraction: the partial `mid` chain is freed again (`live` is back to its old value). -/
-theorem add_atomic (hc : CmpLaw cmp) (t : Table) (k : Key) (v : Nat) (mem : Mem) (hk : k ≠ [])
-    (hg : t.Good cmp) (h : (t.add cmp k v mem).1 ≠ .ok) :
-    (t.add cmp k v mem).1 = .errAlloc ∧ (t.add cmp k v mem).2.1 = t ∧ (t.add cmp k v mem).2.2.live = mem.live :=
-  (Table.add_spec hc t k v mem hk hg).2.1 h
+theorem add_atomic (t : Table) (k : Key) (v : Nat) (mem : Mem) (h : (t.add cmp k v mem).1 ≠ .ok) :
+    (t.add cmp k v mem).1 = .errAlloc ∧ (t.add cmp k v mem).2.1 = t ∧
+    (t.add cmp k v mem).2.2.liveT t.triple = mem.liveT t.triple := by
+  have := Table.add_atomic_any (cmp := cmp) t k v mem h
+  exact ⟨this.1, this.2.1, this.2.2.1⟩
 
 /-- a refusal is never swallowed: `add` reports `CC_ERR_ALLOC` exactly when one of its allocator
 requests was refused (and then exactly one was) -/
@@ -109,22 +122,22 @@ theorem remove_refines_partial (hc : CmpLaw cmp) (t : Table) (k : Key) (mem : Me
     (t.remove cmp k mem).1 = .ok ∧ (t.remove cmp k mem).2.1 = some v ∧
     (t.remove cmp k mem).2.2.1.Good cmp ∧
     (∀ k', (t.remove cmp k mem).2.2.1.abs.get k' = (t.abs.remove k).get k') ∧
-    (t.remove cmp k mem).2.2.2.live + t.root.owned = mem.live + (t.remove cmp k mem).2.2.1.root.owned ∧
+    (t.remove cmp k mem).2.2.2.liveT t.triple + t.root.owned =
+      mem.liveT t.triple + (t.remove cmp k mem).2.2.1.root.owned ∧
     (t.remove cmp k mem).2.2.1.root.owned < t.root.owned ∧
     (t.remove cmp k mem).2.2.2.fault = mem.fault := by
   have h := Table.remove_spec hc t k mem hk hg hl
   rw [hp] at h
-  exact ⟨h.1, h.2.1, h.2.2.1, h.2.2.2.1, h.2.2.2.2.1, h.2.2.2.2.2.1, h.2.2.2.2.2.2.1⟩
+  exact h
 
 /-- **C16 (TST part): removing or getting an absent key reports `CC_ERR_KEY_NOT_FOUND` and changes
-nothing** — the whole physical state and the ledger are untouched. -/
+nothing** — the whole physical state and the ledger are untouched (no ledger hypothesis is needed:
+the rejected path never calls `mem_free`). -/
 theorem remove_absent_inert_partial (hc : CmpLaw cmp) (t : Table) (k : Key) (mem : Mem)
-    (hk : k ≠ []) (hg : t.Good cmp) (hl : t.Owns mem) (hp : t.abs.get k = none) :
+    (hk : k ≠ []) (hg : t.Good cmp) (hp : t.abs.get k = none) :
     t.remove cmp k mem = (.errKeyNotFound, none, t, mem) ∧ t.get cmp k = (.errKeyNotFound, none) ∧
     t.containsKey cmp k = false := by
-  have h := Table.remove_spec hc t k mem hk hg hl
-  rw [hp] at h
-  refine ⟨h, ?_, ?_⟩
+  refine ⟨Table.remove_absent hc t k mem hk hg hp, ?_, ?_⟩
   · rw [Table.get_spec hc t k hk hg, hp]
   · rw [Table.containsKey_spec hc t k hk hg]; simp [StrMap.contains, hp]
 
@@ -145,10 +158,12 @@ theorem get_remove_partial (hc : CmpLaw cmp) (t : Table) (k k' : Key) (mem : Mem
 
 /-- `remove_all` empties the table and releases every node and entry block (C06) -/
 theorem removeAll_refines (t : Table) (mem : Mem) (hg : t.Good cmp) (hl : t.Owns mem) :
-    (t.removeAll mem).1 = ⟨0, .nil⟩ ∧ (t.removeAll mem).1.Good cmp ∧ (t.removeAll mem).1.abs = StrMap.empty ∧
-    (t.removeAll mem).2.live + t.root.owned = mem.live ∧ (t.removeAll mem).2.fault = mem.fault := by
+    (t.removeAll mem).1 = { t with size := 0, root := .nil } ∧ (t.removeAll mem).1.Good cmp ∧
+    (t.removeAll mem).1.abs = StrMap.empty ∧
+    (t.removeAll mem).2.liveT t.triple + t.root.owned = mem.liveT t.triple ∧
+    (t.removeAll mem).2.fault = mem.fault := by
   have h := Table.removeAll_spec t mem hg.1.1 hl
-  refine ⟨h.1, by rw [h.1]; exact Table.good_empty, by rw [h.1]; rfl, ?_, h.2.2.1⟩
+  refine ⟨h.1, by rw [h.1]; exact Table.good_empty _, by rw [h.1]; rfl, ?_, h.2.2⟩
   rw [h.2.1]; unfold Table.Owns at hl; omega
 
 /-- **size = number of distinct keys present** -/
@@ -178,142 +193,18 @@ theorem enumeration_exact_partial (hc : CmpLaw cmp) (t : Table) (mem : Mem) (hg 
   · simp only [hk, if_false, ne_eq, not_false_eq_true, true_and, Table.get]
     cases t.root.lookup cmp k <;> simp
 
-/-! ## histories -/
+/-! ## iterator sessions (C07, TST part) -/
 
-/-- One step of the concrete model refines one step of the ideal map (non-empty keys). -/
-theorem step_refines_partial (hc : CmpLaw cmp) (t : Table) (s : StrMap) (op : Op) (mem : Mem)
-    (hk : op.key ≠ some []) (hg : t.Good cmp) (hl : t.Owns mem) (hr : Rel t s) :
-    OutRel (t.step cmp op mem).1 (s.step (refusedIn (t.step cmp op mem).1) op).1 ∧
-    Rel (t.step cmp op mem).2.1 (s.step (refusedIn (t.step cmp op mem).1) op).2 ∧
-    (t.step cmp op mem).2.1.Good cmp ∧ (t.step cmp op mem).2.1.Owns (t.step cmp op mem).2.2 ∧
-    (t.step cmp op mem).2.2.fault = mem.fault := by
-  have hperm := rel_perm hc t s hg hr
-  cases op with
-  | add k v sched =>
-    have hk' : k ≠ [] := by intro h; subst h; exact hk rfl
-    have h := Table.add_spec hc t k v (mem.begin sched) hk' hg
-    have hlive : (mem.begin sched).live = mem.live := rfl
-    have hfault : (mem.begin sched).fault = mem.fault := rfl
-    by_cases hok : (t.add cmp k v (mem.begin sched)).1 = .ok
-    · obtain ⟨h1, h2, h3⟩ := h.1 hok
-      have e1 : (t.step cmp (.add k v sched) mem).1 = { st := some .ok } := by simp [Table.step, hok]
-      have e2 : refusedIn { st := some .ok } = false := by decide
-      rw [e1, e2]
-      simp only [Table.step, StrMap.step, Bool.false_eq_true, if_false]
-      refine ⟨⟨rfl, rfl, List.Perm.refl _⟩, ⟨SpecLemmas.wf_add s k v hr.1, ?_⟩, h1, ?_, by rw [h.2.2.1, hfault]⟩
-      · intro k'; rw [h2 k', SpecLemmas.get_add, SpecLemmas.get_add, hr.2 k']
-      · unfold Table.Owns at hl ⊢; omega
-    · obtain ⟨h1, h2, h3⟩ := h.2.1 hok
-      have e1 : (t.step cmp (.add k v sched) mem).1 = { st := some .errAlloc } := by simp [Table.step, h1]
-      have e2 : refusedIn { st := some .errAlloc } = true := by decide
-      rw [e1, e2]
-      simp only [Table.step, StrMap.step, if_true, h2]
-      refine ⟨⟨rfl, rfl, List.Perm.refl _⟩, hr, hg, ?_, by rw [h.2.2.1, hfault]⟩
-      unfold Table.Owns at hl ⊢; omega
-  | get k =>
-    have hk' : k ≠ [] := by intro h; subst h; exact hk rfl
-    simp only [Table.step, StrMap.step]
-    rw [Table.get_spec hc t k hk' hg, ← hr.2 k]
-    cases s.get k <;> exact ⟨⟨rfl, rfl, List.Perm.refl _⟩, hr, hg, hl, by simp⟩
-  | contains k =>
-    have hk' : k ≠ [] := by intro h; subst h; exact hk rfl
-    simp only [Table.step, StrMap.step]
-    rw [Table.containsKey_spec hc t k hk' hg]
-    simp only [StrMap.contains, ← hr.2 k]
-    exact ⟨⟨rfl, rfl, List.Perm.refl _⟩, hr, hg, hl, by simp⟩
-  | remove k =>
-    have hk' : k ≠ [] := by intro h; subst h; exact hk rfl
-    have h := Table.remove_spec hc t k mem hk' hg hl
-    simp only [Table.step, StrMap.step]
-    rw [hr.2 k]
-    cases hp : t.abs.get k with
-    | none =>
-      rw [hp] at h; rw [h]
-      exact ⟨⟨rfl, rfl, List.Perm.refl _⟩, hr, hg, hl, by simp⟩
-    | some v =>
-      rw [hp] at h
-      obtain ⟨h1, h2, h3, h4, h5, h6, h7, _⟩ := h
-      simp only [h1, h2]
-      refine ⟨⟨rfl, rfl, List.Perm.refl _⟩, ⟨SpecLemmas.wf_remove s k hr.1, ?_⟩, h3, ?_, h7⟩
-      · intro k'; rw [h4 k', SpecLemmas.get_remove, SpecLemmas.get_remove, hr.2 k']
-      · unfold Table.Owns at hl ⊢; omega
-  | removeAll =>
-    have h := removeAll_refines (cmp := cmp) t mem hg hl
-    simp only [Table.step, StrMap.step]
-    refine ⟨⟨rfl, rfl, List.Perm.refl _⟩, ⟨by simp [StrMap.removeAll, StrMap.WF, StrMap.keys], ?_⟩, h.2.1, ?_, h.2.2.2.2⟩
-    · intro k; rw [h.2.2.1]; rfl
-    · unfold Table.Owns at hl ⊢; rw [h.1]; simp; omega
-  | size =>
-    simp only [Table.step, StrMap.step]
-    refine ⟨⟨rfl, ?_, List.Perm.refl _⟩, hr, hg, hl, by simp⟩
-    rw [← abs_size t hg.1.1]
-    simp only [StrMap.size, hperm.length_eq]
-  | enumerate =>
-    simp only [Table.step, StrMap.step, iterAll_eq]
-    exact ⟨⟨rfl, rfl, hperm.symm⟩, hr, hg, hl, by simp⟩
-
-/-- the flags the spec is run with: which calls of the model run reported `CC_ERR_ALLOC` -/
-def flagged (cmp : Cmp) (t : Table) (ops : List Op) (mem : Mem) : List (Bool × Op) :=
-  ((t.run cmp ops mem).1.map refusedIn).zip ops
-
-/-- **C11, all histories (non-empty keys).** From any state satisfying the invariant, running any
-history of add / get / contains / remove / remove_all / size / enumerate on the model yields the
-statuses, out-values and (up to order) enumerations of the ideal string map, ends in a state whose
-content is the map's content, keeps the invariant and the ledger, and never faults. -/
-theorem history_refines_partial (hc : CmpLaw cmp) (ops : List Op) (hk : ∀ op ∈ ops, op.key ≠ some [])
-    (t : Table) (s : StrMap) (mem : Mem) (hg : t.Good cmp) (hl : t.Owns mem) (hr : Rel t s) :
-    OutsRel (t.run cmp ops mem).1 (s.run (flagged cmp t ops mem)).1 ∧
-    Rel (t.run cmp ops mem).2.1 (s.run (flagged cmp t ops mem)).2 ∧
-    (t.run cmp ops mem).2.1.Good cmp ∧ (t.run cmp ops mem).2.1.Owns (t.run cmp ops mem).2.2 ∧
-    (t.run cmp ops mem).2.2.fault = mem.fault := by
-  induction ops generalizing t s mem with
-  | nil => exact ⟨trivial, hr, hg, hl, rfl⟩
-  | cons op ops ih =>
-    obtain ⟨h1, h2, h3, h4, h5⟩ :=
-      step_refines_partial hc t s op mem (hk op (List.mem_cons_self ..)) hg hl hr
-    have ih' := ih (fun o ho => hk o (List.mem_cons_of_mem _ ho)) _ _ _ h3 h4 h2
-    simp only [flagged, Table.run, List.map_cons, List.zip_cons_cons, StrMap.run] at ih' ⊢
-    exact ⟨⟨h1, ih'.1⟩, ih'.2.1, ih'.2.2.1, ih'.2.2.2.1, by rw [ih'.2.2.2.2, h5]⟩
-
-/-- **C11 from the constructor**: every history on a freshly constructed table. -/
-theorem new_history_refines_partial (hc : CmpLaw cmp) (m0 m1 : Mem) (t0 : Table)
-    (hnew : Table.new m0 = (.ok, some t0, m1)) (ops : List Op) (hk : ∀ op ∈ ops, op.key ≠ some []) :
-    OutsRel (t0.run cmp ops m1).1 (StrMap.empty.run (flagged cmp t0 ops m1)).1 ∧
-    Rel (t0.run cmp ops m1).2.1 (StrMap.empty.run (flagged cmp t0 ops m1)).2 ∧
-    (t0.run cmp ops m1).2.2.fault = m0.fault := by
-  have h := Table.new_spec m0
-  rw [hnew] at h
-  obtain ⟨h1, _, h3⟩ := h
-  obtain ⟨h1a, h1b⟩ := h1 rfl
-  simp only [Option.some.injEq] at h1a
-  subst h1a
-  have hg : (Table.mk 0 .nil).Good cmp := Table.good_empty
-  have := history_refines_partial hc ops hk ⟨0, .nil⟩ StrMap.empty m1 hg
-    (by unfold Table.Owns; simp at h1b ⊢; omega) (rel_abs hc _ hg)
-  exact ⟨this.1, this.2.1, by rw [this.2.2.2.2, h3]⟩
-
-/-- **C06 (TST part): construct … destroy is balanced**: whatever the table owns is released by
-`destroy`, without fault. -/
-theorem destroy_balanced (t : Table) (mem : Mem) (hg : t.Good cmp) (hl : t.Owns mem) :
-    (t.destroy mem).live + t.root.owned + 1 = mem.live ∧ (t.destroy mem).fault = mem.fault := by
-  have h := Table.destroy_spec t mem hg.1.1 hl
-  unfold Table.Owns at hl
-  exact ⟨by rw [h.1]; omega, h.2⟩
-
-/-! ## iterator programs (C07, TST part) -/
-open CC.Spec.StrMap (IOp IOut Cursor)
-
-/-- closes goals that `simp only` may or may not have reduced to `True` already -/
-local macro "triv" : tactic => `(tactic| first | rfl | trivial | simp)
-
-/-- the key that `iter_remove` would remove now -/
+/-- the key that `iter_remove` would remove now (none before the first yield, after the end, and — since
+the repair X7 — directly after an `iter_remove`) -/
 def lastKey (t : Table) (it : Iter) : Option Key :=
   it.lastYield.bind fun p => (t.root.sub p).data?.map (·.1)
 
 /-- simulation relation between the C iterator (pointer automaton state `it`) and the ideal cursor:
-`todo` is what both are still going to yield, in the implementation's order -/
+`todo` is what the implementation is still going to yield, in its order; the cursor holds the same
+keys (in whatever order) -/
 def IterRel (t : Table) (it : Iter) (cu : Cursor) (todo : List (Path × Entry)) : Prop :=
-  IterOk t.root it todo ∧ it.curMarked t.root ∧ cu.todo = todo.map (·.2.1) ∧ cu.last = lastKey t it
+  IterOk t.root it todo ∧ it.curMarked t.root ∧ cu.todo.Perm (todo.map (·.2.1)) ∧ cu.last = lastKey t it
 
 theorem entry_get (hc : CmpLaw cmp) (t : Table) (s : StrMap) (hg : t.Good cmp) (hr : Rel t s)
     (p : Path) (e : Entry) (hd : (t.root.sub p).data? = some e) : s.get e.1 = some e.2 := by
@@ -331,29 +222,26 @@ theorem todo_keys_nodup (hc : CmpLaw cmp) (t : Table) (hg : t.Good cmp) (pre tod
   simp only [List.map_append, List.map_map] at hw
   exact (List.nodup_append.mp hw).2.1
 
-/-- the iterator of a freshly initialised session is related to the fresh cursor -/
-theorem iterInit_rel (t : Table) : IterRel t (iterInit t) (StrMap.cursorNew t.abs) t.root.entriesP := by
-  refine ⟨Or.inl ⟨rfl, iterInit_at t⟩, ?_, ?_, rfl⟩
-  · intro p hp; simp [iterInit] at hp
-  · simp [StrMap.cursorNew, StrMap.keys, Table.abs, ← entriesP_map_snd]
+/-- the iterator of a freshly initialised session is related to the fresh cursor of any spec state
+that describes the table -/
+theorem iterInit_rel (hc : CmpLaw cmp) (t : Table) (s : StrMap) (hg : t.Good cmp) (hr : Rel t s) :
+    IterRel t (iterInit t) (StrMap.cursorNew s) t.root.entriesP := by
+  refine ⟨Or.inl ⟨rfl, iterInit_at t⟩, iterInit_curMarked t, ?_, rfl⟩
+  have := (rel_perm hc t s hg hr).map (·.1)
+  simp only [StrMap.cursorNew, StrMap.keys, Table.abs, ← entriesP_map_snd, List.map_map] at this ⊢
+  exact this
 
-/-- **One iterator call refines the ideal cursor** (non-empty keys; `remove` not directly after a
-`remove`): same status and value, the yielded key is one the cursor had not yielded yet, `remove`
-deletes exactly the key yielded last, the iteration continues over exactly the keys not yet yielded,
-and nothing faults or leaks. -/
-theorem iter_step_refines_partial (hc : CmpLaw cmp) (t : Table) (s : StrMap) (it : Iter) (cu : Cursor)
-    (todo : List (Path × Entry)) (op : IOp) (mem : Mem)
-    (hg : t.Good cmp) (hl : t.Owns mem) (hr : Rel t s) (hi : IterRel t it cu todo)
-    (hlegal : ∀ w, op = .remove w → it.adv = false) :
-    (t.iterOp it op mem).1 = (s.cursorStep cu (t.iterOp it op mem).1.key op).1 ∧
-    (s.cursorStep cu (t.iterOp it op mem).1.key op).2.1 = true ∧
-    Rel (t.iterOp it op mem).2.1 (s.cursorStep cu (t.iterOp it op mem).1.key op).2.2.1 ∧
-    (t.iterOp it op mem).2.1.Good cmp ∧ (t.iterOp it op mem).2.1.Owns (t.iterOp it op mem).2.2.2 ∧
-    (t.iterOp it op mem).2.2.2.fault = mem.fault ∧
-    (op = .next → (t.iterOp it op mem).2.2.1.adv = false) ∧
-    ∃ todo', IterRel (t.iterOp it op mem).2.1 (t.iterOp it op mem).2.2.1
-      (s.cursorStep cu (t.iterOp it op mem).1.key op).2.2.2 todo' ∧
-      (op = .next → todo' = todo.tail) ∧ (∀ w, op = .remove w → todo' = todo) := by
+/-- the functional part of `iter_step_refines_partial` -/
+theorem iter_step_core_partial (hc : CmpLaw cmp) (t : Table) (s : StrMap) (it : Iter) (cu : Cursor)
+    (todo : List (Path × Entry)) (op : IOp) (mem : Mem) (hk : [] ∉ op.keys)
+    (hg : t.Good cmp) (hl : t.Owns mem) (hr : Rel t s) (hi : IterRel t it cu todo) :
+    (t.iterOp cmp it op mem).1 = (s.cursorStep cu (t.iterOp cmp it op mem).1.key op).1 ∧
+    (s.cursorStep cu (t.iterOp cmp it op mem).1.key op).2.1 = true ∧
+    Rel (t.iterOp cmp it op mem).2.1 (s.cursorStep cu (t.iterOp cmp it op mem).1.key op).2.2.1 ∧
+    (t.iterOp cmp it op mem).2.1.Good cmp ∧
+    ∃ todo', IterRel (t.iterOp cmp it op mem).2.1 (t.iterOp cmp it op mem).2.2.1
+      (s.cursorStep cu (t.iterOp cmp it op mem).1.key op).2.2.2 todo' ∧
+      (op = .next → todo' = todo.tail) ∧ (op ≠ .next → todo' = todo) := by
   obtain ⟨hok, hcm, hct, hcl⟩ := hi
   cases op with
   | next =>
@@ -363,10 +251,9 @@ theorem iter_step_refines_partial (hc : CmpLaw cmp) (t : Table) (s : StrMap) (it
     cases todo with
     | nil =>
       obtain ⟨n3, n4, n5, n6⟩ := n3
-      simp only [List.map_nil] at hct
-      simp only [Table.iterOp, StrMap.cursorStep, StrMap.cursorNext, hct, n3, n4, Option.map_none]
-      refine ⟨by triv, by triv, hr, hg, by rw [n1]; exact hl, by rw [n1], fun _ => n2, [], ⟨n5, ?_, by triv, ?_⟩, fun _ => rfl,
-        (fun w h => by cases h)⟩
+      have hcu : cu.todo = [] := List.Perm.eq_nil hct
+      simp only [Table.iterOp, StrMap.cursorStep, SpecLemmas.cursorNext_end s cu _ hcu, n3, n4, Option.map_none]
+      refine ⟨by triv, by triv, hr, hg, [], ⟨n5, ?_, by triv, ?_⟩, fun _ => rfl, fun h => absurd rfl h⟩
       · intro p hp; rw [n6] at hp; cases hp
       · simp [lastKey, Iter.lastYield, n2, n6]
     | cons x tl =>
@@ -374,113 +261,282 @@ theorem iter_step_refines_partial (hc : CmpLaw cmp) (t : Table) (s : StrMap) (it
       have hd := hok.head_data mem
       have hget := entry_get hc t s hg hr x.1 x.2 hd
       simp only [List.map_cons] at hct hnd
-      have hfil : (x.2.1 :: tl.map (·.2.1)).filter (· != x.2.1) = tl.map (·.2.1) := by
-        simp only [List.filter_cons, bne_self_eq_false, Bool.false_eq_true, if_false]
-        apply List.filter_eq_self.mpr
-        intro a ha
-        have := (List.nodup_cons.mp hnd).1
-        simp only [bne_iff_ne, ne_eq]
-        intro h; subst h; exact this ha
-      simp only [Table.iterOp, StrMap.cursorStep, StrMap.cursorNext, hct, n3, n4, Option.map_some,
-        List.contains_cons, beq_self_eq_true, Bool.true_or, if_true, hget, hfil]
-      refine ⟨by triv, by triv, hr, hg, by rw [n1]; exact hl, by rw [n1], fun _ => n2, tl, ⟨n5, ?_, by triv, ?_⟩, fun _ => rfl,
-        (fun w h => by cases h)⟩
+      have hmem : x.2.1 ∈ cu.todo := hct.mem_iff.mpr (by simp)
+      have hfil : (cu.todo.filter (· != x.2.1)).Perm (tl.map (·.2.1)) := by
+        have h1 := hct.filter (· != x.2.1)
+        have h2 : (x.2.1 :: tl.map (·.2.1)).filter (· != x.2.1) = tl.map (·.2.1) := by
+          simp only [List.filter_cons, bne_self_eq_false, Bool.false_eq_true, if_false]
+          apply List.filter_eq_self.mpr
+          intro a ha
+          have := (List.nodup_cons.mp hnd).1
+          simp only [bne_iff_ne, ne_eq]
+          intro h; subst h; exact this ha
+        rwa [h2] at h1
+      simp only [Table.iterOp, StrMap.cursorStep, n3, n4, Option.map_some,
+        SpecLemmas.cursorNext_yield s cu x.2.1 x.2.2 hmem hget]
+      refine ⟨by triv, by triv, hr, hg, tl, ⟨n5, ?_, hfil, ?_⟩, fun _ => rfl, fun h => absurd rfl h⟩
       · intro p hp; rw [n6] at hp; simp at hp; subst hp; exact ⟨x.2, hd⟩
       · simp [lastKey, Iter.lastYield, n2, n6, hd]
   | remove w =>
-    have hadv := hlegal w rfl
-    have hat : IterAt t.root it todo := by
-      rcases hok with ⟨_, h⟩ | ⟨h, _⟩
-      · exact h
-      · rw [hadv] at h; cases h
-    cases hcur : it.cur with
-    | none =>
-      have hl0 : cu.last = none := by rw [hcl]; simp [lastKey, Iter.lastYield, hadv, hcur]
-      simp only [Table.iterOp, iterRemove_inert t it w mem hcur, StrMap.cursorStep, StrMap.cursorRemove, hl0]
-      refine ⟨by triv, by triv, hr, hg, hl, by triv, (fun h => by cases h), todo, ⟨hok, hcm, hct, hcl⟩, (fun h => by cases h), fun _ _ => rfl⟩
-    | some p =>
-      obtain ⟨e, hd⟩ := hcm p hcur
-      have hl0 : cu.last = some e.1 := by rw [hcl]; simp [lastKey, Iter.lastYield, hadv, hcur, hd]
-      have hget := entry_get hc t s hg hr p e hd
-      obtain ⟨r1, r2, r3, r4, r5, r6, r7, r8, r9⟩ := Table.iterRemove_spec hc t it w mem todo p e hg hl hat hadv hcur hd
-      simp only [Table.iterOp, StrMap.cursorStep, StrMap.cursorRemove, hl0, hget, r1, r2]
-      refine ⟨by triv, by triv, ⟨SpecLemmas.wf_remove s e.1 hr.1, ?_⟩, r3, r5, r7, (fun h => by cases h), todo, ⟨r8, ?_, hct, ?_⟩,
-        (fun h => by cases h), fun _ _ => rfl⟩
-      · intro k; rw [r4 k, SpecLemmas.get_remove, SpecLemmas.get_remove, hr.2 k]
-      · -- the iterator now stands at the head of `todo`, which is a marked node of the pruned tree
-        intro q hq
-        rcases r8 with ⟨h, _⟩ | ⟨_, h⟩
-        · rw [r9] at h; cases h
-        · cases todo with
-          | nil => rw [h.2.1] at hq; cases hq
-          | cons x tl => rw [h.2.2.1] at hq; simp at hq; subst hq; exact ⟨x.2, h.2.1⟩
-      · simp [lastKey, Iter.lastYield, r9]
+    by_cases hin : it.cur = none ∨ it.adv = true
+    · have hl0 : cu.last = none := by
+        rw [hcl]; rcases hin with h | h <;> simp [lastKey, Iter.lastYield, h]
+      simp only [Table.iterOp, iterRemove_inert t it w mem hin, StrMap.cursorStep, StrMap.cursorRemove, hl0]
+      exact ⟨by triv, by triv, hr, hg, todo, ⟨hok, hcm, hct, hcl⟩, (fun h => by cases h), fun _ => rfl⟩
+    · have hadv : it.adv = false := by
+        cases h : it.adv with
+        | false => rfl
+        | true => exact absurd (Or.inr h) hin
+      have hat : IterAt t.root it todo := by
+        rcases hok with ⟨_, h⟩ | ⟨h, _⟩
+        · exact h
+        · rw [hadv] at h; cases h
+      cases hcur : it.cur with
+      | none => exact absurd (Or.inl hcur) hin
+      | some p =>
+        obtain ⟨e, hd⟩ := hcm p hcur
+        have hl0 : cu.last = some e.1 := by rw [hcl]; simp [lastKey, Iter.lastYield, hadv, hcur, hd]
+        have hget := entry_get hc t s hg hr p e hd
+        obtain ⟨r1, r2, r3, r4, r5, r6, r7, r8, r9, _⟩ :=
+          Table.iterRemove_spec hc t it w mem todo p e hg hl hat hadv hcur hd
+        simp only [Table.iterOp, StrMap.cursorStep, StrMap.cursorRemove, hl0, hget, r1, r2]
+        refine ⟨by triv, by triv, ⟨SpecLemmas.wf_remove s e.1 hr.1, ?_⟩, r3, todo, ⟨r8, ?_, hct, ?_⟩,
+          (fun h => by cases h), fun _ => rfl⟩
+        · intro k; rw [r4 k, SpecLemmas.get_remove, SpecLemmas.get_remove, hr.2 k]
+        · intro q hq
+          rcases r8 with ⟨h, _⟩ | ⟨_, h⟩
+          · rw [r9] at h; cases h
+          · cases todo with
+            | nil => rw [h.2.1] at hq; cases hq
+            | cons x tl => rw [h.2.2.1] at hq; simp at hq; subst hq; exact ⟨x.2, h.2.1⟩
+        · simp [lastKey, Iter.lastYield, r9]
+  | get k =>
+    have hk' : k ≠ [] := by intro h; subst h; exact hk (by simp [IOp.keys])
+    simp only [Table.iterOp, StrMap.cursorStep, Table.get_spec hc t k hk' hg, ← hr.2 k]
+    cases s.get k <;>
+      exact ⟨by triv, by triv, hr, hg, todo, ⟨hok, hcm, hct, hcl⟩, (fun h => by cases h), fun _ => rfl⟩
+  | contains k =>
+    have hk' : k ≠ [] := by intro h; subst h; exact hk (by simp [IOp.keys])
+    simp only [Table.iterOp, StrMap.cursorStep, Table.containsKey_spec hc t k hk' hg, StrMap.contains, ← hr.2 k]
+    exact ⟨by triv, by triv, hr, hg, todo, ⟨hok, hcm, hct, hcl⟩, (fun h => by cases h), fun _ => rfl⟩
+  | size =>
+    have hsz : t.size = s.size := by
+      rw [← abs_size t hg.1.1]; simp only [StrMap.size, (rel_perm hc t s hg hr).length_eq]
+    simp only [Table.iterOp, StrMap.cursorStep, hsz]
+    exact ⟨by triv, by triv, hr, hg, todo, ⟨hok, hcm, hct, hcl⟩, (fun h => by cases h), fun _ => rfl⟩
 
-def isRemove : IOp → Bool
-  | .next => false
-  | .remove _ => true
+/-- **One call of an iterator session refines the ideal cursor** (non-empty keys): same status and
+value, the yielded key is one the cursor had not yielded yet, `remove` deletes exactly the key yielded
+last (a repeated `remove`, or one with nothing yielded, is rejected and inert), the iteration
+continues over exactly the keys not yet yielded, `get/contains/size` between the calls see the current
+map; the structural invariant, the **exact** ledger equation and `fault` are kept (`StructOK`). -/
+theorem iter_step_refines_partial (hc : CmpLaw cmp) (t : Table) (s : StrMap) (it : Iter) (cu : Cursor)
+    (todo : List (Path × Entry)) (op : IOp) (mem : Mem) (hk : [] ∉ op.keys)
+    (hg : t.Good cmp) (hl : t.Owns mem) (hr : Rel t s) (hi : IterRel t it cu todo) :
+    (t.iterOp cmp it op mem).1 = (s.cursorStep cu (t.iterOp cmp it op mem).1.key op).1 ∧
+    (s.cursorStep cu (t.iterOp cmp it op mem).1.key op).2.1 = true ∧
+    Rel (t.iterOp cmp it op mem).2.1 (s.cursorStep cu (t.iterOp cmp it op mem).1.key op).2.2.1 ∧
+    (t.iterOp cmp it op mem).2.1.Good cmp ∧
+    StructOK cmp t mem (t.iterOp cmp it op mem).2.1 (t.iterOp cmp it op mem).2.2.2 ∧
+    ∃ todo', IterRel (t.iterOp cmp it op mem).2.1 (t.iterOp cmp it op mem).2.2.1
+      (s.cursorStep cu (t.iterOp cmp it op mem).1.key op).2.2.2 todo' ∧
+      (op = .next → todo' = todo.tail) ∧ (op ≠ .next → todo' = todo) := by
+  have hst := (Table.iterOp_struct (cmp := cmp) t it op mem todo hg.1 hl hi.1 hi.2.1).1
+  obtain ⟨h1, h2, h3, h4, h5⟩ := iter_step_core_partial hc t s it cu todo op mem hk hg hl hr hi
+  exact ⟨h1, h2, h3, h4, hst, h5⟩
 
 /-- the keys the implementation yielded, paired with the calls: the resolution of the cursor's
 nondeterminism, validated by the cursor (`legal` flag) -/
-def iterChoices (t : Table) (it : Iter) (ops : List IOp) (mem : Mem) : List (Option Key × IOp) :=
-  ((t.iterRun it ops mem).1.map (·.key)).zip ops
+def iterChoices (cmp : Cmp) (t : Table) (it : Iter) (ops : List IOp) (mem : Mem) : List (Option Key × IOp) :=
+  ((t.iterRun cmp it ops mem).1.map (·.key)).zip ops
 
-/-- **C07 (TST part), all iterator programs.** From any related state, every program of `iter_next` /
-`iter_remove` calls that respects the contract (at most one `iter_remove` per yielded element) returns
-exactly the statuses and values of the ideal cursor; every yielded key is one the cursor had not
-yielded before (so each present key is yielded at most once, and `CC_ITER_END` comes exactly when none
-is left); the final table is the ideal map; invariant and ledger are kept; nothing faults. -/
-theorem iter_program_refines_partial (hc : CmpLaw cmp) (ops : List IOp) (t : Table) (s : StrMap) (it : Iter)
-    (cu : Cursor) (todo : List (Path × Entry)) (mem : Mem) (flag : Bool)
-    (hg : t.Good cmp) (hl : t.Owns mem) (hr : Rel t s) (hi : IterRel t it cu todo)
-    (hflag : it.adv = true → flag = true) (hlegal : StrMap.legalProg flag ops = true) :
-    (t.iterRun it ops mem).1 = (s.cursorRun cu (iterChoices t it ops mem)).1.map (·.1) ∧
-    (∀ x ∈ (s.cursorRun cu (iterChoices t it ops mem)).1, x.2 = true) ∧
-    Rel (t.iterRun it ops mem).2.1 (s.cursorRun cu (iterChoices t it ops mem)).2.1 ∧
-    (t.iterRun it ops mem).2.1.Good cmp ∧ (t.iterRun it ops mem).2.1.Owns (t.iterRun it ops mem).2.2.2 ∧
-    (t.iterRun it ops mem).2.2.2.fault = mem.fault := by
-  induction ops generalizing t s it cu todo mem flag with
-  | nil => exact ⟨rfl, by simp [iterChoices, StrMap.cursorRun], hr, hg, hl, rfl⟩
+/-- **C07 (TST part), all iterator sessions.** From any related state, *every* sequence of `iter_next` /
+`iter_remove` / `get` / `contains_key` / `size` calls (repeated `iter_remove`s included: they are
+rejected, X7) returns exactly the statuses and values of the ideal cursor; every yielded key is one
+the cursor had not yielded before (so each present key is yielded at most once, and `CC_ITER_END`
+comes exactly when none is left); the final table is the ideal map; invariant, exact ledger equation
+and `fault` are kept. -/
+theorem iter_program_refines_partial (hc : CmpLaw cmp) (ops : List IOp) (hk : ∀ op ∈ ops, [] ∉ op.keys)
+    (t : Table) (s : StrMap) (it : Iter) (cu : Cursor) (todo : List (Path × Entry)) (mem : Mem)
+    (hg : t.Good cmp) (hl : t.Owns mem) (hr : Rel t s) (hi : IterRel t it cu todo) :
+    (t.iterRun cmp it ops mem).1 = (s.cursorRun cu (iterChoices cmp t it ops mem)).1.map (·.1) ∧
+    (∀ x ∈ (s.cursorRun cu (iterChoices cmp t it ops mem)).1, x.2 = true) ∧
+    Rel (t.iterRun cmp it ops mem).2.1 (s.cursorRun cu (iterChoices cmp t it ops mem)).2.1 ∧
+    (t.iterRun cmp it ops mem).2.1.Good cmp ∧
+    StructOK cmp t mem (t.iterRun cmp it ops mem).2.1 (t.iterRun cmp it ops mem).2.2.2 := by
+  induction ops generalizing t s it cu todo mem with
+  | nil => exact ⟨rfl, by simp [iterChoices, StrMap.cursorRun], hr, hg, StructOK.refl t mem hg.1⟩
   | cons op ops ih =>
-    have hleg1 : ∀ w, op = .remove w → it.adv = false := by
-      intro w hw; subst hw
-      simp only [StrMap.legalProg, Bool.and_eq_true, Bool.not_eq_true'] at hlegal
-      cases ha : it.adv with
-      | false => rfl
-      | true => have := hflag ha; rw [this] at hlegal; cases hlegal.1
-    obtain ⟨h1, h2, h3, h4, h5, h6, h7, todo', h8, _, _⟩ :=
-      iter_step_refines_partial hc t s it cu todo op mem hg hl hr hi hleg1
-    have hflag' : (t.iterOp it op mem).2.2.1.adv = true → (isRemove op) = true := by
-      intro ha
-      cases op with
-      | next => rw [h7 rfl] at ha; cases ha
-      | remove w => rfl
-    have hlegal' : StrMap.legalProg (isRemove op) ops = true := by
-      cases op with
-      | next => simpa [StrMap.legalProg, isRemove] using hlegal
-      | remove w => simp only [StrMap.legalProg, Bool.and_eq_true] at hlegal; exact hlegal.2
-    have ih' := ih _ _ _ _ todo' _ _ h4 h5 h3 h8 hflag' hlegal'
+    obtain ⟨h1, h2, h3, h4, h5, todo', h8, _, _⟩ :=
+      iter_step_refines_partial hc t s it cu todo op mem (hk op (List.mem_cons_self ..)) hg hl hr hi
+    have ih' := ih (fun o ho => hk o (List.mem_cons_of_mem _ ho)) _ _ _ _ todo' _ h4 (h5.owns hl) h3 h8
     simp only [iterChoices, Table.iterRun, List.map_cons, List.zip_cons_cons, StrMap.cursorRun] at ih' ⊢
-    refine ⟨?_, ?_, ih'.2.2.1, ih'.2.2.2.1, ih'.2.2.2.2.1, by rw [ih'.2.2.2.2.2, h6]⟩
-    · exact List.cons_eq_cons.mpr ⟨h1, ih'.1⟩
-    · intro x hx
-      rcases List.mem_cons.mp hx with hx | hx
-      · rw [hx]; exact h2
-      · exact ih'.2.1 x hx
+    refine ⟨List.cons_eq_cons.mpr ⟨h1, ih'.1⟩, ?_, ih'.2.2.1, ih'.2.2.2.1, h5.trans ih'.2.2.2.2⟩
+    intro x hx
+    rcases List.mem_cons.mp hx with hx | hx
+    · rw [hx]; exact h2
+    · exact ih'.2.1 x hx
 
-/-- **C07 from `iter_init`**: every contract-respecting iterator program on a table in a good state. -/
-theorem iter_init_program_refines_partial (hc : CmpLaw cmp) (ops : List IOp) (t : Table) (mem : Mem)
-    (hg : t.Good cmp) (hl : t.Owns mem) (hlegal : StrMap.legalProg false ops = true) :
-    (t.iterRun (iterInit t) ops mem).1 =
-      (t.abs.cursorRun (StrMap.cursorNew t.abs) (iterChoices t (iterInit t) ops mem)).1.map (·.1) ∧
-    (∀ x ∈ (t.abs.cursorRun (StrMap.cursorNew t.abs) (iterChoices t (iterInit t) ops mem)).1, x.2 = true) ∧
-    Rel (t.iterRun (iterInit t) ops mem).2.1
-      (t.abs.cursorRun (StrMap.cursorNew t.abs) (iterChoices t (iterInit t) ops mem)).2.1 ∧
-    (t.iterRun (iterInit t) ops mem).2.1.Good cmp ∧
-    (t.iterRun (iterInit t) ops mem).2.2.2.fault = mem.fault := by
-  have := iter_program_refines_partial hc ops t t.abs (iterInit t) (StrMap.cursorNew t.abs) t.root.entriesP mem false
-    hg hl (rel_abs hc t hg) (iterInit_rel t) (by intro h; cases h) hlegal
-  exact ⟨this.1, this.2.1, this.2.2.1, this.2.2.2.1, this.2.2.2.2.2⟩
+/-- **C07 from `iter_init`**: every iterator session on a table in a good state, against any spec
+state describing it. -/
+theorem iter_init_program_refines_partial (hc : CmpLaw cmp) (ops : List IOp) (hk : ∀ op ∈ ops, [] ∉ op.keys)
+    (t : Table) (s : StrMap) (mem : Mem) (hg : t.Good cmp) (hl : t.Owns mem) (hr : Rel t s) :
+    (t.iterRun cmp (iterInit t) ops mem).1 =
+      (s.cursorRun (StrMap.cursorNew s) (iterChoices cmp t (iterInit t) ops mem)).1.map (·.1) ∧
+    (∀ x ∈ (s.cursorRun (StrMap.cursorNew s) (iterChoices cmp t (iterInit t) ops mem)).1, x.2 = true) ∧
+    Rel (t.iterRun cmp (iterInit t) ops mem).2.1
+      (s.cursorRun (StrMap.cursorNew s) (iterChoices cmp t (iterInit t) ops mem)).2.1 ∧
+    (t.iterRun cmp (iterInit t) ops mem).2.1.Good cmp ∧
+    StructOK cmp t mem (t.iterRun cmp (iterInit t) ops mem).2.1 (t.iterRun cmp (iterInit t) ops mem).2.2.2 :=
+  iter_program_refines_partial hc ops hk t s (iterInit t) (StrMap.cursorNew s) t.root.entriesP mem
+    hg hl hr (iterInit_rel hc t s hg hr)
+
+/-- X7 (repaired): a second `iter_remove` for the same yielded entry is rejected and changes nothing;
+before the repair it removed the next, not yet yielded, key -/
+theorem repeated_iter_remove_rejected (t : Table) (it : Iter) (w : Bool) (mem : Mem) (h : it.adv = true) :
+    iterRemove t it w mem = (.errKeyNotFound, none, t, it, mem) := iterRemove_inert t it w mem (Or.inr h)
+
+/-! ## histories -/
+
+/-- the functional part of `step_refines_partial` -/
+theorem step_core_partial (hc : CmpLaw cmp) (t : Table) (s : StrMap) (op : Op) (mem : Mem)
+    (hk : [] ∉ op.keys) (hg : t.Good cmp) (hl : t.Owns mem) (hr : Rel t s) :
+    OutRel (t.step cmp op mem).1 (s.step (oracleOf (t.step cmp op mem).1) op).1 ∧
+    Rel (t.step cmp op mem).2.1 (s.step (oracleOf (t.step cmp op mem).1) op).2 ∧
+    (t.step cmp op mem).2.1.Good cmp := by
+  have hperm := rel_perm hc t s hg hr
+  cases op with
+  | add k v sched =>
+    have hk' : k ≠ [] := by intro h; subst h; exact hk (by simp [Op.keys])
+    have h := Table.add_spec hc t k v (mem.begin sched) hk' hg
+    by_cases hok : (t.add cmp k v (mem.begin sched)).1 = .ok
+    · obtain ⟨h1, h2, h3⟩ := h.1 hok
+      have e1 : (t.step cmp (.add k v sched) mem).1 = { st := some .ok } := by simp [Table.step, hok]
+      have e2 : (oracleOf { st := some .ok }).refused = false := by decide
+      rw [e1]
+      simp only [Table.step, StrMap.step, e2, Bool.false_eq_true, if_false]
+      refine ⟨⟨rfl, rfl, List.Perm.refl _, rfl, rfl⟩, ⟨SpecLemmas.wf_add s k v hr.1, ?_⟩, h1⟩
+      intro k'; rw [h2 k', SpecLemmas.get_add, SpecLemmas.get_add, hr.2 k']
+    · obtain ⟨h1, h2, h3⟩ := h.2.1 hok
+      have e1 : (t.step cmp (.add k v sched) mem).1 = { st := some .errAlloc } := by simp [Table.step, h1]
+      have e2 : (oracleOf { st := some .errAlloc }).refused = true := by decide
+      rw [e1]
+      simp only [Table.step, StrMap.step, e2, if_true, h2]
+      exact ⟨⟨rfl, rfl, List.Perm.refl _, rfl, rfl⟩, hr, hg⟩
+  | get k =>
+    have hk' : k ≠ [] := by intro h; subst h; exact hk (by simp [Op.keys])
+    simp only [Table.step, StrMap.step]
+    rw [Table.get_spec hc t k hk' hg, ← hr.2 k]
+    cases s.get k <;> exact ⟨⟨rfl, rfl, List.Perm.refl _, rfl, rfl⟩, hr, hg⟩
+  | contains k =>
+    have hk' : k ≠ [] := by intro h; subst h; exact hk (by simp [Op.keys])
+    simp only [Table.step, StrMap.step]
+    rw [Table.containsKey_spec hc t k hk' hg]
+    simp only [StrMap.contains, ← hr.2 k]
+    exact ⟨⟨rfl, rfl, List.Perm.refl _, rfl, rfl⟩, hr, hg⟩
+  | remove k =>
+    have hk' : k ≠ [] := by intro h; subst h; exact hk (by simp [Op.keys])
+    have h := Table.remove_spec hc t k mem hk' hg hl
+    simp only [Table.step, StrMap.step]
+    rw [hr.2 k]
+    cases hp : t.abs.get k with
+    | none =>
+      rw [hp] at h; rw [h]
+      exact ⟨⟨rfl, rfl, List.Perm.refl _, rfl, rfl⟩, hr, hg⟩
+    | some v =>
+      rw [hp] at h
+      obtain ⟨h1, h2, h3, h4, h5, h6, h7⟩ := h
+      simp only [h1, h2]
+      refine ⟨⟨rfl, rfl, List.Perm.refl _, rfl, rfl⟩, ⟨SpecLemmas.wf_remove s k hr.1, ?_⟩, h3⟩
+      intro k'; rw [h4 k', SpecLemmas.get_remove, SpecLemmas.get_remove, hr.2 k']
+  | removeAll =>
+    have h := removeAll_refines (cmp := cmp) t mem hg hl
+    simp only [Table.step, StrMap.step]
+    refine ⟨⟨rfl, rfl, List.Perm.refl _, rfl, rfl⟩, ⟨by simp [StrMap.removeAll, StrMap.WF, StrMap.keys], ?_⟩, h.2.1⟩
+    intro k; rw [h.2.2.1]; rfl
+  | size =>
+    simp only [Table.step, StrMap.step]
+    refine ⟨⟨rfl, ?_, List.Perm.refl _, rfl, rfl⟩, hr, hg⟩
+    rw [← abs_size t hg.1.1]
+    simp only [StrMap.size, hperm.length_eq]
+  | enumerate =>
+    simp only [Table.step, StrMap.step, iterAll_eq]
+    exact ⟨⟨rfl, rfl, hperm.symm, rfl, rfl⟩, hr, hg⟩
+  | iterate prog =>
+    have hk' : ∀ op ∈ prog, [] ∉ op.keys := by
+      intro o ho h; exact hk (by simp only [Op.keys, List.mem_flatMap]; exact ⟨o, ho, h⟩)
+    obtain ⟨i1, i2, i3, i4, _⟩ := iter_init_program_refines_partial hc prog hk' t s mem hg hl hr
+    simp only [iterChoices] at i1 i2 i3
+    simp only [Table.step, StrMap.step, oracleOf]
+    refine ⟨⟨rfl, rfl, List.Perm.refl _, i1, ?_⟩, i3, i4⟩
+    symm; simp only [List.all_eq_true]; exact fun x hx => i2 x hx
+
+/-- One step of the concrete model refines one step of the ideal map (non-empty keys) — table calls
+and whole iterator sessions alike; invariant, exact ledger, no fault (`StructOK`). -/
+theorem step_refines_partial (hc : CmpLaw cmp) (t : Table) (s : StrMap) (op : Op) (mem : Mem)
+    (hk : [] ∉ op.keys) (hg : t.Good cmp) (hl : t.Owns mem) (hr : Rel t s) :
+    OutRel (t.step cmp op mem).1 (s.step (oracleOf (t.step cmp op mem).1) op).1 ∧
+    Rel (t.step cmp op mem).2.1 (s.step (oracleOf (t.step cmp op mem).1) op).2 ∧
+    (t.step cmp op mem).2.1.Good cmp ∧ StructOK cmp t mem (t.step cmp op mem).2.1 (t.step cmp op mem).2.2 := by
+  obtain ⟨h1, h2, h3⟩ := step_core_partial hc t s op mem hk hg hl hr
+  exact ⟨h1, h2, h3, Table.step_struct t op mem hg.1 hl⟩
+
+/-- what the spec is told about the run of the model: per call, `oracleOf` of its output -/
+def flagged (cmp : Cmp) (t : Table) (ops : List Op) (mem : Mem) : List (Oracle × Op) :=
+  ((t.run cmp ops mem).1.map oracleOf).zip ops
+
+/-- the oracle does not depend on the ledger: whether an `add` is refused is determined by the table,
+the key and the call's own schedule (history-level companion of `add_refused_iff`) -/
+theorem flagged_independent (t : Table) (ops : List Op) (mem mem' : Mem) :
+    flagged cmp t ops mem = flagged cmp t ops mem' := by
+  simp only [flagged, (Table.run_indep (cmp := cmp) t ops mem mem').1]
+
+/-- **C11, all histories (non-empty keys).** From any state satisfying the invariant, running any
+history of add / get / contains / remove / remove_all / size / enumerate / *iterator sessions*
+(`iter_init` followed by any `iter_next` / `iter_remove` / query calls) on the model yields the
+statuses, out-values and (up to order) enumerations of the ideal string map, ends in a state whose
+content is the map's content, keeps the invariant and the exact ledger, and never faults — for every
+allocator schedule. -/
+theorem history_refines_partial (hc : CmpLaw cmp) (ops : List Op) (hk : ∀ op ∈ ops, [] ∉ op.keys)
+    (t : Table) (s : StrMap) (mem : Mem) (hg : t.Good cmp) (hl : t.Owns mem) (hr : Rel t s) :
+    OutsRel (t.run cmp ops mem).1 (s.run (flagged cmp t ops mem)).1 ∧
+    Rel (t.run cmp ops mem).2.1 (s.run (flagged cmp t ops mem)).2 ∧
+    (t.run cmp ops mem).2.1.Good cmp ∧
+    StructOK cmp t mem (t.run cmp ops mem).2.1 (t.run cmp ops mem).2.2 := by
+  induction ops generalizing t s mem with
+  | nil => exact ⟨trivial, hr, hg, StructOK.refl t mem hg.1⟩
+  | cons op ops ih =>
+    obtain ⟨h1, h2, h3, h4⟩ :=
+      step_refines_partial hc t s op mem (hk op (List.mem_cons_self ..)) hg hl hr
+    have ih' := ih (fun o ho => hk o (List.mem_cons_of_mem _ ho)) _ _ _ h3 (h4.owns hl) h2
+    simp only [flagged, Table.run, List.map_cons, List.zip_cons_cons, StrMap.run] at ih' ⊢
+    exact ⟨⟨h1, ih'.1⟩, ih'.2.1, ih'.2.2.1, h4.trans ih'.2.2.2⟩
+
+/-- **C11 from the constructor** (either constructor: `tr = .conf` is `cc_tsttable_new_conf`,
+`tr = .libc` is `cc_tsttable_new`): every history on a freshly constructed table. -/
+theorem new_history_refines_partial (hc : CmpLaw cmp) (tr : Triple) (m0 m1 : Mem) (t0 : Table)
+    (hnew : Table.new tr m0 = (.ok, some t0, m1)) (ops : List Op) (hk : ∀ op ∈ ops, [] ∉ op.keys) :
+    OutsRel (t0.run cmp ops m1).1 (StrMap.empty.run (flagged cmp t0 ops m1)).1 ∧
+    Rel (t0.run cmp ops m1).2.1 (StrMap.empty.run (flagged cmp t0 ops m1)).2 ∧
+    (t0.run cmp ops m1).2.2.fault = m0.fault := by
+  have h := Table.new_spec tr m0
+  rw [hnew] at h
+  obtain ⟨h1, _, h3⟩ := h
+  obtain ⟨h1a, h1b⟩ := h1 rfl
+  simp only [Option.some.injEq] at h1a
+  subst h1a
+  have hg : (Table.mk 0 .nil tr).Good cmp := Table.good_empty tr
+  have := history_refines_partial hc ops hk ⟨0, .nil, tr⟩ StrMap.empty m1 hg
+    (by unfold Table.Owns; simp at h1b ⊢; omega) (rel_abs hc _ hg)
+  exact ⟨this.1, this.2.1, by rw [this.2.2.2.2.1, h3]⟩
+
+/-- **C06 (TST part): construct … destroy is balanced**: whatever the table owns is released by
+`destroy`, without fault. -/
+theorem destroy_balanced (t : Table) (mem : Mem) (hg : t.Good cmp) (hl : t.Owns mem) :
+    (t.destroy mem).liveT t.triple + t.root.owned + 1 = mem.liveT t.triple ∧ (t.destroy mem).fault = mem.fault := by
+  have h := Table.destroy_spec t mem hg.1.1 hl
+  unfold Table.Owns at hl
+  exact ⟨by rw [h.1]; omega, h.2⟩
 
 /-! ## the comparators of the harness satisfy the contract -/
 
@@ -495,7 +551,7 @@ theorem signed_order_high_bytes : cmpSigned 0x80 0x61 = .lt ∧ cmpSigned 0xff 0
 /-! ## Known finding X5: the empty key aliases the root node -/
 
 /-- the table holding the single pair `"a" ↦ 1` -/
-def x5Table : Table := ⟨1, .node 97 (some ([97], 1)) .nil .nil .nil⟩
+def x5Table : Table := ⟨1, .node 97 (some ([97], 1)) .nil .nil .nil, .conf⟩
 
 /-- **Negation witness (X5).** On the well-formed table `{"a" ↦ 1}` the ideal map has no empty key,
 yet `get ""` returns the value of `"a"`; `add "" 2` reports success without growing the table, steals
@@ -504,28 +560,37 @@ theorem empty_key_aliases_root :
     x5Table.Good cmpSigned ∧ x5Table.abs.get [] = none ∧
     x5Table.get cmpSigned [] = (.ok, some 1) ∧
     (x5Table.add cmpSigned [] 2 {}).1 = .ok ∧
-    (x5Table.add cmpSigned [] 2 {}).2.1 = ⟨1, .node 97 (some ([], 2)) .nil .nil .nil⟩ ∧
+    (x5Table.add cmpSigned [] 2 {}).2.1 = ⟨1, .node 97 (some ([], 2)) .nil .nil .nil, .conf⟩ ∧
     (x5Table.add cmpSigned [] 2 {}).2.1.get cmpSigned [97] = (.ok, some 2) ∧
-    (x5Table.remove cmpSigned [] { live := 3 }).2.2.1 = ⟨0, .nil⟩ := by
+    (x5Table.remove cmpSigned [] { live := 3 }).2.2.1 = ⟨0, .nil, .conf⟩ := by
   decide
 
-/-- X5 is a *functional* defect only: with any key, the empty one included, `add` and `remove` keep the
-structural invariant (`size` = number of marked nodes, no unmarked leaf, ordering), the ledger, and
-never fault. -/
-theorem structural_inv_any_key (t : Table) (k : Key) (v : Nat) (mem : Mem) (hi : t.Inv cmp) (hl : t.Owns mem) :
-    (t.add cmp k v mem).2.1.Inv cmp ∧ (t.add cmp k v mem).2.2.fault = mem.fault ∧
-    (t.remove cmp k mem).2.2.1.Inv cmp ∧ (t.remove cmp k mem).2.2.2.fault = mem.fault :=
-  ⟨(Table.add_inv_any_key t k v mem hi).1, (Table.add_inv_any_key t k v mem hi).2.1,
-   (Table.remove_inv_any_key t k mem hi hl).1, (Table.remove_inv_any_key t k mem hi hl).2.1⟩
+/-- X5 is a *functional* defect only: with any key, the empty one included, every operation keeps the
+structural invariant (`size` = number of marked nodes, no unmarked leaf, ordering), the exact ledger,
+and never faults. -/
+theorem structural_inv_any_key (t : Table) (op : Op) (mem : Mem) (hi : t.Inv cmp) (hl : t.Owns mem) :
+    StructOK cmp t mem (t.step cmp op mem).2.1 (t.step cmp op mem).2.2 := Table.step_struct t op mem hi hl
 
-/-! ## Non-vacuity: nested prefixes and a high byte satisfy the invariant -/
+/-! ## Non-vacuity: nested prefixes and a high byte satisfy the invariant; a history with a refused add,
+a removal through the iterator and a repeated `iter_remove` runs as the ideal map says -/
 def nestedTable : Table := ⟨3, .node 97 (some ([97], 1))
   (.node 128 (some ([128], 3)) .nil .nil .nil)
-  (.node 98 (some ([97, 98], 2)) .nil .nil .nil) .nil⟩
+  (.node 98 (some ([97, 98], 2)) .nil .nil .nil) .nil, .conf⟩
 
 example : nestedTable.Good cmpSigned ∧ nestedTable.get cmpSigned [97, 98] = (.ok, some 2) ∧
     nestedTable.get cmpSigned [128] = (.ok, some 3) ∧ nestedTable.Owns { live := 7 } := by
   refine ⟨by decide, by decide, by decide, ?_⟩
   unfold Table.Owns; decide
+
+example :
+    (nestedTable.run cmpSigned
+        [.add [99] 4 [true], .add [99] 4 [], .iterate [.next, .remove true, .remove true, .next, .size],
+         .get [97], .size] { live := 7 }).1 =
+      [{ st := some .errAlloc }, { st := some .ok },
+       { iter := [{ st := .ok, key := some [97], val := some 1 }, { st := .ok, val := some 1 },
+                  { st := .errKeyNotFound }, { st := .ok, key := some [128], val := some 3 },
+                  { st := .ok, val := some 3 }] },
+       { st := some .errKeyNotFound }, { val := some 3 }] := by
+  decide
 
 end CC.Properties.C11
